@@ -192,14 +192,14 @@ def run(ctx):
     raise fnspec.tlc.MachineryError("TLC found %d distinct states (%d of them start states) but wrote %d inputs"
                                     % (model["distinct"], SHARDS, len(inputs)))
   ctx.log("TLC enumerated %d inputs in %.1fs; Ok(in, Flatten(in)) holds on all" % (len(inputs), model["wall"]))
-  nshards = 8 if ctx.quick else 16
+  nshards = 4 if ctx.quick else 16
   files = fnspec.run_cases(WORKER, inputs, ctx.workdir, nshards=nshards)
   n_enum = len(inputs)
   samples = inputs[n_enum // 2: n_enum // 2 + 3]
   plain = sum(1 for i in inputs if not i["inc"] and not i["exc"])
   del inputs
   # C->S: Hypothesis documents beyond the bound, through the same judge
-  nh_shards, nh = (4, 150) if ctx.quick else (16, 1500)
+  nh_shards, nh = (2, 300) if ctx.quick else (16, 1500)
   hyp_args = [{"hyp": {"seed": ctx.seed * 1000 + i, "n": nh}, "shard": "h%d" % i,
                "out": os.path.join(ctx.workdir, "hyp-%02d.json" % i)} for i in range(nh_shards)]
   corpus.run_workers(WORKER, hyp_args)
@@ -208,7 +208,7 @@ def run(ctx):
   ctx.log("workers done: %d enumerated, %d Hypothesis documents" % (enum_stats["cases"], hyp_stats["cases"]))
   if enum_stats["cases"] != n_enum:
     raise fnspec.tlc.MachineryError("recorded %d cases for %d inputs" % (enum_stats["cases"], n_enum))
-  failures, n, wall = fnspec.judge(SPEC, files + hyp_files, ctx.workdir, parallel=nshards)
+  failures, n, wall = fnspec.judge(SPEC, files + hyp_files, ctx.workdir, parallel=6 if ctx.quick else 16)
   ctx.log("judged %d cases in %.1fs" % (n, wall))
   n_self = _selftests(files, failures, ctx.workdir)
 
@@ -228,7 +228,7 @@ def run(ctx):
                     "keys are single characters other than '_' and differ from the import name 'T' (no path "
                     "collisions); the filter semantics (prefix of the name path) is read off the code and its tests",
                     "row numbers are ranks in document order (the output has no other row identity)",
-                    "Hypothesis documents (seeded; keys a-h, <= 16 leaves, any JSON scalars, options aimed at "
+                    "Hypothesis documents (seeded; keys a-h, <= 30 leaves, any JSON scalars, options aimed at "
                     "the document's own paths) are a sample"],
     "violations": viol,
     "extra": {"enumerated_inputs": n_enum, "enumerated_without_options": plain,
